@@ -1123,3 +1123,95 @@ package weshnet
 //@   at (*SimpleQueue[T]).Add requires [C08.queue.item-wellformed] m != nil && as(m, "*berty.tech/weshnet/v2.messageItem").headers != nil && as(m, "*berty.tech/weshnet/v2.messageItem").op != nil && as(m, "*berty.tech/weshnet/v2.messageItem").env != nil
 //@   ensures [C08.queue.added] result == nil ==> llen(m.messagesQueue.list) == old(llen(m.messagesQueue.list)) + 1 && sends(m.messagesQueue.signal) == old(sends(m.messagesQueue.signal)) + 1
 //@   ensures [C08.queue.refused] result != nil ==> llen(m.messagesQueue.list) == old(llen(m.messagesQueue.list))
+
+//@ # ======================= C07, index half: the state of a contact is decided by the first event the scan meets =======================
+//@ # (UpdateIndex scans the log newest first, C04.scan.log-order: the first event met for a contact is its latest one. A handler
+//@ # creates the contact in the state of its event when the contact is not there yet and never changes the state of a contact
+//@ # that is; older request events may only fill in metadata and rendezvous seed that are still missing.)
+//@ pred ixOK(m) = m != nil && m.contacts != nil && m.contactsFromGroupPK != nil && m.contactRequestMetadata != nil && m.group != nil && m.secretStore != nil
+//@      && m.contacts != m.contactsFromGroupPK
+//@      && (forall k Bytes {has(m.contacts, k)} :: has(m.contacts, k) ==> m.contacts[k] != nil && m.contacts[k].contact != nil)
+//@ extern (berty.tech/weshnet/v2/pkg/secretstore.SecretStore).GetGroupForContact(s, pk) (g, err)
+//@   ensures err == nil ==> g != nil
+//@ func (*metadataStoreIndex).registerContactFromGroupPK
+//@   for C07
+//@   safety
+//@   requires m != nil && m.contactsFromGroupPK != nil && m.group != nil && m.secretStore != nil && ac != nil && ac.contact != nil
+//@   modifies mapof(m.contactsFromGroupPK)
+//@ func (*metadataStoreIndex).handleContactRequestOutgoingSent
+//@   for C07
+//@   safety
+//@   requires ixOK(m)
+//@   modifies mapof(m.contacts), mapof(m.contactsFromGroupPK)
+//@   ensures [C07.index.sent.first-event-decides] typeis(event, "*berty.tech/weshnet/v2/pkg/protocoltypes.AccountContactRequestOutgoingSent") && old(has(m.contacts, bytes(as(event, "*berty.tech/weshnet/v2/pkg/protocoltypes.AccountContactRequestOutgoingSent").ContactPk))) ==>
+//@        m.contacts[bytes(as(event, "*berty.tech/weshnet/v2/pkg/protocoltypes.AccountContactRequestOutgoingSent").ContactPk)] == old(m.contacts[bytes(as(event, "*berty.tech/weshnet/v2/pkg/protocoltypes.AccountContactRequestOutgoingSent").ContactPk)]) && m.contacts[bytes(as(event, "*berty.tech/weshnet/v2/pkg/protocoltypes.AccountContactRequestOutgoingSent").ContactPk)].state == old(m.contacts[bytes(as(event, "*berty.tech/weshnet/v2/pkg/protocoltypes.AccountContactRequestOutgoingSent").ContactPk)].state)
+//@   ensures [C07.index.sent.new] typeis(event, "*berty.tech/weshnet/v2/pkg/protocoltypes.AccountContactRequestOutgoingSent") && !old(has(m.contacts, bytes(as(event, "*berty.tech/weshnet/v2/pkg/protocoltypes.AccountContactRequestOutgoingSent").ContactPk))) ==>
+//@        has(m.contacts, bytes(as(event, "*berty.tech/weshnet/v2/pkg/protocoltypes.AccountContactRequestOutgoingSent").ContactPk)) && m.contacts[bytes(as(event, "*berty.tech/weshnet/v2/pkg/protocoltypes.AccountContactRequestOutgoingSent").ContactPk)] != nil && fresh(m.contacts[bytes(as(event, "*berty.tech/weshnet/v2/pkg/protocoltypes.AccountContactRequestOutgoingSent").ContactPk)]) && m.contacts[bytes(as(event, "*berty.tech/weshnet/v2/pkg/protocoltypes.AccountContactRequestOutgoingSent").ContactPk)].state == 3
+//@   ensures [C07.index.sent.others] forall k Bytes {has(m.contacts, k)} :: !(typeis(event, "*berty.tech/weshnet/v2/pkg/protocoltypes.AccountContactRequestOutgoingSent") && k == bytes(as(event, "*berty.tech/weshnet/v2/pkg/protocoltypes.AccountContactRequestOutgoingSent").ContactPk)) ==> has(m.contacts, k) == old(has(m.contacts, k)) && m.contacts[k] == old(m.contacts[k])
+//@   ensures [C07.index.sent.wrong-event] !typeis(event, "*berty.tech/weshnet/v2/pkg/protocoltypes.AccountContactRequestOutgoingSent") ==> result != nil
+//@ func (*metadataStoreIndex).handleContactRequestIncomingDiscarded
+//@   for C07
+//@   safety
+//@   requires ixOK(m)
+//@   modifies mapof(m.contacts), mapof(m.contactsFromGroupPK)
+//@   ensures [C07.index.discarded.first-event-decides] typeis(event, "*berty.tech/weshnet/v2/pkg/protocoltypes.AccountContactRequestIncomingDiscarded") && old(has(m.contacts, bytes(as(event, "*berty.tech/weshnet/v2/pkg/protocoltypes.AccountContactRequestIncomingDiscarded").ContactPk))) ==>
+//@        m.contacts[bytes(as(event, "*berty.tech/weshnet/v2/pkg/protocoltypes.AccountContactRequestIncomingDiscarded").ContactPk)] == old(m.contacts[bytes(as(event, "*berty.tech/weshnet/v2/pkg/protocoltypes.AccountContactRequestIncomingDiscarded").ContactPk)]) && m.contacts[bytes(as(event, "*berty.tech/weshnet/v2/pkg/protocoltypes.AccountContactRequestIncomingDiscarded").ContactPk)].state == old(m.contacts[bytes(as(event, "*berty.tech/weshnet/v2/pkg/protocoltypes.AccountContactRequestIncomingDiscarded").ContactPk)].state)
+//@   ensures [C07.index.discarded.new] typeis(event, "*berty.tech/weshnet/v2/pkg/protocoltypes.AccountContactRequestIncomingDiscarded") && !old(has(m.contacts, bytes(as(event, "*berty.tech/weshnet/v2/pkg/protocoltypes.AccountContactRequestIncomingDiscarded").ContactPk))) ==>
+//@        has(m.contacts, bytes(as(event, "*berty.tech/weshnet/v2/pkg/protocoltypes.AccountContactRequestIncomingDiscarded").ContactPk)) && m.contacts[bytes(as(event, "*berty.tech/weshnet/v2/pkg/protocoltypes.AccountContactRequestIncomingDiscarded").ContactPk)] != nil && fresh(m.contacts[bytes(as(event, "*berty.tech/weshnet/v2/pkg/protocoltypes.AccountContactRequestIncomingDiscarded").ContactPk)]) && m.contacts[bytes(as(event, "*berty.tech/weshnet/v2/pkg/protocoltypes.AccountContactRequestIncomingDiscarded").ContactPk)].state == 5
+//@   ensures [C07.index.discarded.others] forall k Bytes {has(m.contacts, k)} :: !(typeis(event, "*berty.tech/weshnet/v2/pkg/protocoltypes.AccountContactRequestIncomingDiscarded") && k == bytes(as(event, "*berty.tech/weshnet/v2/pkg/protocoltypes.AccountContactRequestIncomingDiscarded").ContactPk)) ==> has(m.contacts, k) == old(has(m.contacts, k)) && m.contacts[k] == old(m.contacts[k])
+//@   ensures [C07.index.discarded.wrong-event] !typeis(event, "*berty.tech/weshnet/v2/pkg/protocoltypes.AccountContactRequestIncomingDiscarded") ==> result != nil
+//@ func (*metadataStoreIndex).handleContactRequestIncomingAccepted
+//@   for C07
+//@   safety
+//@   requires ixOK(m)
+//@   modifies mapof(m.contacts), mapof(m.contactsFromGroupPK)
+//@   ensures [C07.index.accepted.first-event-decides] typeis(event, "*berty.tech/weshnet/v2/pkg/protocoltypes.AccountContactRequestIncomingAccepted") && old(has(m.contacts, bytes(as(event, "*berty.tech/weshnet/v2/pkg/protocoltypes.AccountContactRequestIncomingAccepted").ContactPk))) ==>
+//@        m.contacts[bytes(as(event, "*berty.tech/weshnet/v2/pkg/protocoltypes.AccountContactRequestIncomingAccepted").ContactPk)] == old(m.contacts[bytes(as(event, "*berty.tech/weshnet/v2/pkg/protocoltypes.AccountContactRequestIncomingAccepted").ContactPk)]) && m.contacts[bytes(as(event, "*berty.tech/weshnet/v2/pkg/protocoltypes.AccountContactRequestIncomingAccepted").ContactPk)].state == old(m.contacts[bytes(as(event, "*berty.tech/weshnet/v2/pkg/protocoltypes.AccountContactRequestIncomingAccepted").ContactPk)].state)
+//@   ensures [C07.index.accepted.new] typeis(event, "*berty.tech/weshnet/v2/pkg/protocoltypes.AccountContactRequestIncomingAccepted") && !old(has(m.contacts, bytes(as(event, "*berty.tech/weshnet/v2/pkg/protocoltypes.AccountContactRequestIncomingAccepted").ContactPk))) ==>
+//@        has(m.contacts, bytes(as(event, "*berty.tech/weshnet/v2/pkg/protocoltypes.AccountContactRequestIncomingAccepted").ContactPk)) && m.contacts[bytes(as(event, "*berty.tech/weshnet/v2/pkg/protocoltypes.AccountContactRequestIncomingAccepted").ContactPk)] != nil && fresh(m.contacts[bytes(as(event, "*berty.tech/weshnet/v2/pkg/protocoltypes.AccountContactRequestIncomingAccepted").ContactPk)]) && m.contacts[bytes(as(event, "*berty.tech/weshnet/v2/pkg/protocoltypes.AccountContactRequestIncomingAccepted").ContactPk)].state == 3
+//@   ensures [C07.index.accepted.others] forall k Bytes {has(m.contacts, k)} :: !(typeis(event, "*berty.tech/weshnet/v2/pkg/protocoltypes.AccountContactRequestIncomingAccepted") && k == bytes(as(event, "*berty.tech/weshnet/v2/pkg/protocoltypes.AccountContactRequestIncomingAccepted").ContactPk)) ==> has(m.contacts, k) == old(has(m.contacts, k)) && m.contacts[k] == old(m.contacts[k])
+//@   ensures [C07.index.accepted.wrong-event] !typeis(event, "*berty.tech/weshnet/v2/pkg/protocoltypes.AccountContactRequestIncomingAccepted") ==> result != nil
+//@ func (*metadataStoreIndex).handleContactBlocked
+//@   for C07
+//@   safety
+//@   requires ixOK(m)
+//@   modifies mapof(m.contacts), mapof(m.contactsFromGroupPK)
+//@   ensures [C07.index.blocked.first-event-decides] typeis(event, "*berty.tech/weshnet/v2/pkg/protocoltypes.AccountContactBlocked") && old(has(m.contacts, bytes(as(event, "*berty.tech/weshnet/v2/pkg/protocoltypes.AccountContactBlocked").ContactPk))) ==>
+//@        m.contacts[bytes(as(event, "*berty.tech/weshnet/v2/pkg/protocoltypes.AccountContactBlocked").ContactPk)] == old(m.contacts[bytes(as(event, "*berty.tech/weshnet/v2/pkg/protocoltypes.AccountContactBlocked").ContactPk)]) && m.contacts[bytes(as(event, "*berty.tech/weshnet/v2/pkg/protocoltypes.AccountContactBlocked").ContactPk)].state == old(m.contacts[bytes(as(event, "*berty.tech/weshnet/v2/pkg/protocoltypes.AccountContactBlocked").ContactPk)].state)
+//@   ensures [C07.index.blocked.new] typeis(event, "*berty.tech/weshnet/v2/pkg/protocoltypes.AccountContactBlocked") && !old(has(m.contacts, bytes(as(event, "*berty.tech/weshnet/v2/pkg/protocoltypes.AccountContactBlocked").ContactPk))) ==>
+//@        has(m.contacts, bytes(as(event, "*berty.tech/weshnet/v2/pkg/protocoltypes.AccountContactBlocked").ContactPk)) && m.contacts[bytes(as(event, "*berty.tech/weshnet/v2/pkg/protocoltypes.AccountContactBlocked").ContactPk)] != nil && fresh(m.contacts[bytes(as(event, "*berty.tech/weshnet/v2/pkg/protocoltypes.AccountContactBlocked").ContactPk)]) && m.contacts[bytes(as(event, "*berty.tech/weshnet/v2/pkg/protocoltypes.AccountContactBlocked").ContactPk)].state == 6
+//@   ensures [C07.index.blocked.others] forall k Bytes {has(m.contacts, k)} :: !(typeis(event, "*berty.tech/weshnet/v2/pkg/protocoltypes.AccountContactBlocked") && k == bytes(as(event, "*berty.tech/weshnet/v2/pkg/protocoltypes.AccountContactBlocked").ContactPk)) ==> has(m.contacts, k) == old(has(m.contacts, k)) && m.contacts[k] == old(m.contacts[k])
+//@   ensures [C07.index.blocked.wrong-event] !typeis(event, "*berty.tech/weshnet/v2/pkg/protocoltypes.AccountContactBlocked") ==> result != nil
+//@ func (*metadataStoreIndex).handleContactUnblocked
+//@   for C07
+//@   safety
+//@   requires ixOK(m)
+//@   modifies mapof(m.contacts), mapof(m.contactsFromGroupPK)
+//@   ensures [C07.index.unblocked.first-event-decides] typeis(event, "*berty.tech/weshnet/v2/pkg/protocoltypes.AccountContactUnblocked") && old(has(m.contacts, bytes(as(event, "*berty.tech/weshnet/v2/pkg/protocoltypes.AccountContactUnblocked").ContactPk))) ==>
+//@        m.contacts[bytes(as(event, "*berty.tech/weshnet/v2/pkg/protocoltypes.AccountContactUnblocked").ContactPk)] == old(m.contacts[bytes(as(event, "*berty.tech/weshnet/v2/pkg/protocoltypes.AccountContactUnblocked").ContactPk)]) && m.contacts[bytes(as(event, "*berty.tech/weshnet/v2/pkg/protocoltypes.AccountContactUnblocked").ContactPk)].state == old(m.contacts[bytes(as(event, "*berty.tech/weshnet/v2/pkg/protocoltypes.AccountContactUnblocked").ContactPk)].state)
+//@   ensures [C07.index.unblocked.new] typeis(event, "*berty.tech/weshnet/v2/pkg/protocoltypes.AccountContactUnblocked") && !old(has(m.contacts, bytes(as(event, "*berty.tech/weshnet/v2/pkg/protocoltypes.AccountContactUnblocked").ContactPk))) ==>
+//@        has(m.contacts, bytes(as(event, "*berty.tech/weshnet/v2/pkg/protocoltypes.AccountContactUnblocked").ContactPk)) && m.contacts[bytes(as(event, "*berty.tech/weshnet/v2/pkg/protocoltypes.AccountContactUnblocked").ContactPk)] != nil && fresh(m.contacts[bytes(as(event, "*berty.tech/weshnet/v2/pkg/protocoltypes.AccountContactUnblocked").ContactPk)]) && m.contacts[bytes(as(event, "*berty.tech/weshnet/v2/pkg/protocoltypes.AccountContactUnblocked").ContactPk)].state == 4
+//@   ensures [C07.index.unblocked.others] forall k Bytes {has(m.contacts, k)} :: !(typeis(event, "*berty.tech/weshnet/v2/pkg/protocoltypes.AccountContactUnblocked") && k == bytes(as(event, "*berty.tech/weshnet/v2/pkg/protocoltypes.AccountContactUnblocked").ContactPk)) ==> has(m.contacts, k) == old(has(m.contacts, k)) && m.contacts[k] == old(m.contacts[k])
+//@   ensures [C07.index.unblocked.wrong-event] !typeis(event, "*berty.tech/weshnet/v2/pkg/protocoltypes.AccountContactUnblocked") ==> result != nil
+//@ func (*metadataStoreIndex).handleContactRequestIncomingReceived
+//@   for C07
+//@   safety
+//@   requires ixOK(m)
+//@   modifies mapof(m.contacts), mapof(m.contactsFromGroupPK), mapof(m.contactRequestMetadata), m.contacts[bytes(as(event, "*berty.tech/weshnet/v2/pkg/protocoltypes.AccountContactRequestIncomingReceived").ContactPk)].contact.Metadata, m.contacts[bytes(as(event, "*berty.tech/weshnet/v2/pkg/protocoltypes.AccountContactRequestIncomingReceived").ContactPk)].contact.PublicRendezvousSeed
+//@   ensures [C07.index.received.first-event-decides] typeis(event, "*berty.tech/weshnet/v2/pkg/protocoltypes.AccountContactRequestIncomingReceived") && old(has(m.contacts, bytes(as(event, "*berty.tech/weshnet/v2/pkg/protocoltypes.AccountContactRequestIncomingReceived").ContactPk))) ==>
+//@        m.contacts[bytes(as(event, "*berty.tech/weshnet/v2/pkg/protocoltypes.AccountContactRequestIncomingReceived").ContactPk)] == old(m.contacts[bytes(as(event, "*berty.tech/weshnet/v2/pkg/protocoltypes.AccountContactRequestIncomingReceived").ContactPk)]) && m.contacts[bytes(as(event, "*berty.tech/weshnet/v2/pkg/protocoltypes.AccountContactRequestIncomingReceived").ContactPk)].state == old(m.contacts[bytes(as(event, "*berty.tech/weshnet/v2/pkg/protocoltypes.AccountContactRequestIncomingReceived").ContactPk)].state)
+//@   ensures [C07.index.received.new] typeis(event, "*berty.tech/weshnet/v2/pkg/protocoltypes.AccountContactRequestIncomingReceived") && !old(has(m.contacts, bytes(as(event, "*berty.tech/weshnet/v2/pkg/protocoltypes.AccountContactRequestIncomingReceived").ContactPk))) ==>
+//@        has(m.contacts, bytes(as(event, "*berty.tech/weshnet/v2/pkg/protocoltypes.AccountContactRequestIncomingReceived").ContactPk)) && m.contacts[bytes(as(event, "*berty.tech/weshnet/v2/pkg/protocoltypes.AccountContactRequestIncomingReceived").ContactPk)] != nil && fresh(m.contacts[bytes(as(event, "*berty.tech/weshnet/v2/pkg/protocoltypes.AccountContactRequestIncomingReceived").ContactPk)]) && m.contacts[bytes(as(event, "*berty.tech/weshnet/v2/pkg/protocoltypes.AccountContactRequestIncomingReceived").ContactPk)].state == 2
+//@   ensures [C07.index.received.others] forall k Bytes {has(m.contacts, k)} :: !(typeis(event, "*berty.tech/weshnet/v2/pkg/protocoltypes.AccountContactRequestIncomingReceived") && k == bytes(as(event, "*berty.tech/weshnet/v2/pkg/protocoltypes.AccountContactRequestIncomingReceived").ContactPk)) ==> has(m.contacts, k) == old(has(m.contacts, k)) && m.contacts[k] == old(m.contacts[k])
+//@   ensures [C07.index.received.wrong-event] !typeis(event, "*berty.tech/weshnet/v2/pkg/protocoltypes.AccountContactRequestIncomingReceived") ==> result != nil
+//@ func (*metadataStoreIndex).handleContactRequestOutgoingEnqueued
+//@   for C07
+//@   safety
+//@   requires ixOK(m)
+//@   modifies mapof(m.contacts), mapof(m.contactsFromGroupPK), mapof(m.contactRequestMetadata), m.contacts[bytes(as(event, "*berty.tech/weshnet/v2/pkg/protocoltypes.AccountContactRequestOutgoingEnqueued").Contact.Pk)].contact.Metadata, m.contacts[bytes(as(event, "*berty.tech/weshnet/v2/pkg/protocoltypes.AccountContactRequestOutgoingEnqueued").Contact.Pk)].contact.PublicRendezvousSeed
+//@   ensures [C07.index.enqueued.first-event-decides] typeis(event, "*berty.tech/weshnet/v2/pkg/protocoltypes.AccountContactRequestOutgoingEnqueued") && as(event, "*berty.tech/weshnet/v2/pkg/protocoltypes.AccountContactRequestOutgoingEnqueued").Contact != nil && old(has(m.contacts, bytes(as(event, "*berty.tech/weshnet/v2/pkg/protocoltypes.AccountContactRequestOutgoingEnqueued").Contact.Pk))) ==>
+//@        m.contacts[bytes(as(event, "*berty.tech/weshnet/v2/pkg/protocoltypes.AccountContactRequestOutgoingEnqueued").Contact.Pk)] == old(m.contacts[bytes(as(event, "*berty.tech/weshnet/v2/pkg/protocoltypes.AccountContactRequestOutgoingEnqueued").Contact.Pk)]) && m.contacts[bytes(as(event, "*berty.tech/weshnet/v2/pkg/protocoltypes.AccountContactRequestOutgoingEnqueued").Contact.Pk)].state == old(m.contacts[bytes(as(event, "*berty.tech/weshnet/v2/pkg/protocoltypes.AccountContactRequestOutgoingEnqueued").Contact.Pk)].state)
+//@   ensures [C07.index.enqueued.new] typeis(event, "*berty.tech/weshnet/v2/pkg/protocoltypes.AccountContactRequestOutgoingEnqueued") && as(event, "*berty.tech/weshnet/v2/pkg/protocoltypes.AccountContactRequestOutgoingEnqueued").Contact != nil && !old(has(m.contacts, bytes(as(event, "*berty.tech/weshnet/v2/pkg/protocoltypes.AccountContactRequestOutgoingEnqueued").Contact.Pk))) ==>
+//@        has(m.contacts, bytes(as(event, "*berty.tech/weshnet/v2/pkg/protocoltypes.AccountContactRequestOutgoingEnqueued").Contact.Pk)) && m.contacts[bytes(as(event, "*berty.tech/weshnet/v2/pkg/protocoltypes.AccountContactRequestOutgoingEnqueued").Contact.Pk)] != nil && fresh(m.contacts[bytes(as(event, "*berty.tech/weshnet/v2/pkg/protocoltypes.AccountContactRequestOutgoingEnqueued").Contact.Pk)]) && m.contacts[bytes(as(event, "*berty.tech/weshnet/v2/pkg/protocoltypes.AccountContactRequestOutgoingEnqueued").Contact.Pk)].state == 1
+//@   ensures [C07.index.enqueued.others] forall k Bytes {has(m.contacts, k)} :: !(typeis(event, "*berty.tech/weshnet/v2/pkg/protocoltypes.AccountContactRequestOutgoingEnqueued") && as(event, "*berty.tech/weshnet/v2/pkg/protocoltypes.AccountContactRequestOutgoingEnqueued").Contact != nil && k == bytes(as(event, "*berty.tech/weshnet/v2/pkg/protocoltypes.AccountContactRequestOutgoingEnqueued").Contact.Pk)) ==> has(m.contacts, k) == old(has(m.contacts, k)) && m.contacts[k] == old(m.contacts[k])
+//@   ensures [C07.index.enqueued.wrong-event] !typeis(event, "*berty.tech/weshnet/v2/pkg/protocoltypes.AccountContactRequestOutgoingEnqueued") ==> result != nil
